@@ -17,6 +17,7 @@ func (s *Sim) LivenessSuffix() {
 	s.begin("LivenessSuffix")
 	s.classifySuffixStart()
 	s.Net.Blocked = map[[2]uint64]bool{}
+	s.ReleaseAll()
 	// un-delivered snapshots: report failure
 	for k := len(s.Net.Owed) - 1; k >= 0; k-- {
 		if !s.Net.Owed[k].Delivered {
